@@ -3,10 +3,10 @@ CFG = dict(
     bins=["c09"],
     imports=["Base.Prelude", "Model.Iter", "Run.RunC09"],
     exhaustive=True,
-    rule="exhaustive critical bands: every len 0..=5 (thorough 0..=6) x lag n in -len-3..=len+3 and i32::MIN, "
+    rule="exhaustive critical bands: every len 0..=5 (thorough 0..=7) x lag n in -len-3..=len+3 and i32::MIN, "
          "i32::MIN+1, i32::MAX x {shift, vshift (None / Some fill; f64, i32, Option<f64> elements; Vec, VecDeque, "
          "ndarray sources), vdiff, vpct_change} x inputs already consumed by (0,0),(1,0),(0,1),(2,1) next()/next_back() "
-         "calls; ffill / bfill / fill / vclip (4 bound patterns) / vabs over EVERY null pattern of len 0..=4 (thorough 5); "
+         "calls; ffill / bfill / fill / vclip (4 bound patterns) / vabs over EVERY null pattern of len 0..=4 (thorough 6); "
          "vcut with bins 0..=3 x labels 0..=4 x right x add_bounds; vpartition / varg_partition with kth 0..=len+2 x sort x "
          "rev x 5 null patterns; winsorize (3 methods); rolling_custom_iter with window 0..=len+2 on Vec, VecDeque, "
          "ndarray; Vec1Create::range / linspace (f64 on a dyadic grid, i32, i64, usize; Vec, VecDeque, ndarray, "
@@ -17,7 +17,7 @@ CFG = dict(
          "windows, chunks_exact, once, empty, range_inclusive, repeat.take, into_iter, copied, &mut dyn by the "
          "contract itself); the trusted collectors (collect_trusted_to_vec, collect_trusted_vec1 into VecDeque / "
          "ndarray, collect_vec1_with_len, write_trust_iter) after the contract was checked by plain iteration; plus "
-         "1800 (thorough 9000) seeded random pipelines of depth 1..=6 over 13 stage kinds and 6 sources built by a "
+         "1800 (thorough 30000) seeded random pipelines of depth 1..=6 over 13 stage kinds and 6 sources built by a "
          "harness-side AST interpreter returning Box<dyn TrustedLen> and mirrored by Model.Iter.build. At every point "
          "of every consumption script the harness records size_hint(), the number of items a fresh copy still yields "
          "by plain safe iteration, and the item; compared exactly with the model. non-trivial = non-empty input",
